@@ -60,7 +60,7 @@ def g_tokens(maxlen, flags="n", tables=None, wrap=True):
 # G-pieces: exhaustive piece sequences for character data (C04) and attribute values (C05)
 # ---------------------------------------------------------------------------------------------
 TEXT_ENTITIES = [("e0", ""), ("e1", "E"), ("e2", "\r"), ("e3", "\nE"), ("e4", "E\r"), ("e5", "p\r\nq"), ("e6", "&e1;\n"),
-                 ("e7", "<![CDATA[y]]>"), ("e8", "<![CDATA[\r]]>w"), ("e9", "\ufeffv")]   # values that START with a CDATA section: character data although they begin with '<'
+                 ("e7", "<![CDATA[y]]>"), ("e8", "<![CDATA[\r]]>w"), ("e9", "\ufeffv"), ("e10", "x&e1;")]   # values that START with a CDATA section: character data although they begin with '<'
 # (source text, kind); kinds: lit, ref (character reference / predefined), cdata, ent
 TEXT_PIECES = [("a", "lit"), ("\n", "lit"), ("\r", "lit"), ("\t", "lit"), ("\ufeff", "lit"),   # U+FEFF is an ordinary Char except at the very start of the input
                ("&#10;", "ref"), ("&#13;", "ref"), ("&#9;", "ref"), ("&#x41;", "ref"), ("&amp;", "ref"),
@@ -904,8 +904,9 @@ def g_ent_many_decls(flags="c", dists=(256, 512)):
                 else:
                     decls.append(("e%d" % k, "v%d" % k))
             exp = "[v%d]" % (i + dist)
-            out.append(Case(ent_doc(decls, "<r>&e%d;</r>" % i), flags, True, meta={"gen": "many-decls-text", "dist": dist, "i": i, "expect": "ok", "expect_value": exp}))
-            out.append(Case(ent_doc(decls, "<r a='&e%d;'/>" % i), flags, True, meta={"gen": "many-decls-attr", "dist": dist, "i": i, "expect": "ok", "expect_value": exp}))
+            big = dist >= 4096      # the extracted model's list recursion overflows its stack on 65 000 declarations: implementation + oracle only
+            out.append(Case(ent_doc(decls, "<r>&e%d;</r>" % i), flags, True, meta={"gen": "many-decls-text", "dist": dist, "i": i, "expect": "ok", "expect_value": exp, "impl_only": big}))
+            out.append(Case(ent_doc(decls, "<r a='&e%d;'/>" % i), flags, True, meta={"gen": "many-decls-attr", "dist": dist, "i": i, "expect": "ok", "expect_value": exp, "impl_only": big}))
     return out
 
 
